@@ -6,7 +6,15 @@ fn overflow() -> ! { panic!("kcoll: capacity bound exceeded") }
 
 pub struct HashMap<K, V> { pub items: [Option<(K, V)>; CAP], pub n: usize }
 impl<K, V> Default for HashMap<K, V> { fn default() -> Self { Self { items: Default::default(), n: 0 } } }
-impl<K: Clone, V: Clone> Clone for HashMap<K, V> { fn clone(&self) -> Self { Self { items: self.items.clone(), n: self.n } } }
+impl<K: Clone, V: Clone> Clone for HashMap<K, V> {
+    // element-wise: `[T; N]::clone` goes through `array::try_from_fn`, after which CBMC no longer sees constant contents
+    fn clone(&self) -> Self {
+        let mut items: [Option<(K, V)>; CAP] = Default::default();
+        let mut i = 0;
+        while i < CAP { items[i] = self.items[i].clone(); i += 1; }
+        Self { items, n: self.n }
+    }
+}
 impl<K, V> std::fmt::Debug for HashMap<K, V> { fn fmt(&self, f: &mut std::fmt::Formatter) -> std::fmt::Result { write!(f, "HashMap") } }
 impl<K: Eq, V> HashMap<K, V> {
     pub fn new() -> Self { Self::default() }
@@ -82,7 +90,14 @@ impl<'de, K: serde::Deserialize<'de> + Eq, V: serde::Deserialize<'de>> serde::De
 }
 pub struct HashSet<T> { pub items: [Option<T>; CAP], pub n: usize }
 impl<T> Default for HashSet<T> { fn default() -> Self { Self { items: Default::default(), n: 0 } } }
-impl<T: Clone> Clone for HashSet<T> { fn clone(&self) -> Self { Self { items: self.items.clone(), n: self.n } } }
+impl<T: Clone> Clone for HashSet<T> {
+    fn clone(&self) -> Self {
+        let mut items: [Option<T>; CAP] = Default::default();
+        let mut i = 0;
+        while i < CAP { items[i] = self.items[i].clone(); i += 1; }
+        Self { items, n: self.n }
+    }
+}
 impl<T> std::fmt::Debug for HashSet<T> { fn fmt(&self, f: &mut std::fmt::Formatter) -> std::fmt::Result { write!(f, "HashSet") } }
 impl<T: Eq> HashSet<T> {
     pub fn new() -> Self { Self::default() }
